@@ -79,8 +79,11 @@ def _enabled(model, nobj):
 
 
 def run_history(hist, check_all=False):
-    """Direct driver: __enter__/__exit__ called explicitly. Judges only the last step unless check_all."""
-    DF.config = {"decay_pattern": DEFAULT[0], "sub_decay_pattern": DEFAULT[1]}
+    """Direct driver: __enter__/__exit__ called explicitly. Judges only the last step unless check_all.
+    The format is reset through the public set_config (a direct assignment to the class attribute would bypass
+    whatever bookkeeping an implementation attaches to it); the descriptor is rendered after EVERY step, because
+    rendering is itself an operation of the alphabet (an implementation may cache what it renders)."""
+    DF.set_config(*DEFAULT)
     model = FormatStack()
     objs = []  # (impl object, format or None when invalid)
     entered = []  # impl objects, innermost last
@@ -134,6 +137,11 @@ def run_history(hist, check_all=False):
         except Exception as e:  # noqa: BLE001
             fails.append((f"exception:{type(e).__name__}@{op[0]}", f"{op} raised {e!r} in history {hist}"))
             break
+        if not (last or check_all):
+            try:
+                dc.to_string()
+            except Exception:  # noqa: BLE001
+                pass
         if last or check_all:
             got = _fmt_of(DF.config)
             if got != model.current or set(DF.config) != {"decay_pattern", "sub_decay_pattern"}:
@@ -174,7 +182,7 @@ class _Leave(Exception):
 def run_with_blocks(hist):
     """Second driver: the same history through real `with` statements (needs a well-nested history:
     every enter is matched by an exit/exitexc later or stays open until the end). Returns per-step observations."""
-    DF.config = {"decay_pattern": DEFAULT[0], "sub_decay_pattern": DEFAULT[1]}
+    DF.set_config(*DEFAULT)
     objs = []
     obs = []
     dc = _chain()
